@@ -475,3 +475,96 @@ def malformed(rng):
     else:
         b = rng.randbytes(rng.choice([2, 3, 16, 64, 200]))
     return Case("malformed", ["P 0", "B 0 %s" % hexs(b)])
+
+
+# ---------------------------------------------------------------- packet sequences (C11, C12, C14, C06)
+
+def packet_sequence(rng, tables, npk=None, versions=(5, 7, 9, 10), conformant=True, ex=None):
+    """-> list of (bytes, version, description), one exporter"""
+    ex = ex or Exporter(rng, tables, conformant)
+    npk = npk if npk is not None else rng.choice([1, 2, 3, 4, 5, 6])
+    out = []
+    for _ in range(npk):
+        b, d = rand_packet(rng, ex, versions)
+        ver = int.from_bytes(b[:2], "big")
+        out.append((b, ver, d))
+    return out
+
+
+def all_partitions(seq):
+    """all 2^(n-1) ways of cutting seq into consecutive non-empty groups"""
+    n = len(seq)
+    out = []
+    for mask in range(1 << (n - 1)):
+        groups = [[seq[0]]]
+        for i in range(1, n):
+            if mask >> (i - 1) & 1:
+                groups.append([])
+            groups[-1].append(seq[i])
+        out.append(groups)
+    return out
+
+
+def v9_boundaries(p):
+    """offsets in a V9 packet at which a cut leaves whole flowsets only"""
+    out = {20}
+    pos = 20
+    while pos + 4 <= len(p):
+        ln = int.from_bytes(p[pos + 2 : pos + 4], "big")
+        pos += max(ln, 4)
+        out.add(pos)
+    return out
+
+
+# ---------------------------------------------------------------- stress families (C01, C15)
+
+def ipfix_msg(sets):
+    body = b"".join(sets)
+    return be(10, 2) + be(16 + len(body), 2) + bytes(12) + body
+
+
+def ipfix_set(sid, body):
+    return be(sid, 2) + be(4 + len(body), 2) + body
+
+
+def v9_pkt(flowsets, count=None):
+    return be(9, 2) + be(len(flowsets) if count is None else count, 2) + bytes(16) + b"".join(flowsets)
+
+
+def v9_fs(fid, body):
+    return be(fid, 2) + be(4 + len(body), 2) + body
+
+
+def stress_cases(rng, big=False):
+    out = []
+    # one IPFIX data set with very many one-byte records (W2)
+    n = 60000 if big else 20000
+    tmpl = ipfix_set(2, be(256, 2) + be(1, 2) + be(4, 2) + be(1, 2))
+    out.append(Case("stress:ipfix-records", ["P 0", "B 0 " + hexs(ipfix_msg([tmpl])), "B 0 " + hexs(ipfix_msg([ipfix_set(256, bytes([6]) * n)]))]))
+    # very many minimal messages chained in one buffer (W3)
+    n = 4095 if big else 1500
+    out.append(Case("stress:chained-ipfix", ["P 0", "B 0 " + hexs((be(10, 2) + be(16, 2) + bytes(12)) * n)]))
+    out.append(Case("stress:chained-v5", ["P 0", "B 0 " + hexs((be(5, 2) + be(0, 2) + bytes(20)) * (2700 if big else 900))]))
+    out.append(Case("stress:chained-v9", ["P 0", "B 0 " + hexs((be(9, 2) + be(0, 2) + bytes(16)) * (3200 if big else 900))]))
+    # V9 template of total size 0, then data (W1); template with no fields
+    out.append(Case("stress:v9-zero-template", ["P 0", "B 0 000900020000000000000000000000000000000000000008010000000100000801020304"]))
+    out.append(Case("stress:v9-zero-len-fields", ["P 0", "B 0 " + hexs(v9_pkt([v9_fs(0, be(300, 2) + be(3, 2) + (be(1, 2) + be(0, 2)) * 3), v9_fs(300, bytes(40))]))]))
+    # count / length fields far beyond the bytes present
+    out.append(Case("stress:v5-count-65535", ["P 0", "B 0 " + hexs(be(5, 2) + be(65535, 2) + bytes(20) + bytes(48 * 3))]))
+    out.append(Case("stress:v9-count-65535", ["P 0", "B 0 " + hexs(v9_pkt([v9_fs(0, be(256, 2) + be(65535, 2) + be(1, 2) + be(4, 2))], count=65535))]))
+    out.append(Case("stress:ipfix-length-65535", ["P 0", "B 0 " + hexs(be(10, 2) + be(65535, 2) + bytes(12) + bytes(100))]))
+    out.append(Case("stress:set-length-0", ["P 0", "B 0 " + hexs(ipfix_msg([be(2, 2) + be(0, 2)] * 50)), "B 0 " + hexs(v9_pkt([be(0, 2) + be(0, 2)] * 50))]))
+    # many templates per flowset, many fields per template
+    nt = 8000 if big else 2000
+    out.append(Case("stress:v9-many-templates", ["P 0", "B 0 " + hexs(v9_pkt([v9_fs(0, b"".join(be(256 + i, 2) + be(1, 2) + be(1, 2) + be(4, 2) for i in range(nt)))]))]))
+    nf = 14000 if big else 3000
+    out.append(Case("stress:v9-many-fields", ["P 0", "B 0 " + hexs(v9_pkt([v9_fs(0, be(256, 2) + be(nf, 2) + (be(1, 2) + be(1, 2)) * nf)])), "B 0 " + hexs(v9_pkt([v9_fs(256, bytes(nf + 10))]))]))
+    out.append(Case("stress:ipfix-many-fields", ["P 0", "B 0 " + hexs(ipfix_msg([ipfix_set(2, be(256, 2) + be(nf, 2) + (be(1, 2) + be(1, 2)) * nf)])), "B 0 " + hexs(ipfix_msg([ipfix_set(256, bytes(nf + 10))]))]))
+    # V9 options template with a zero-length scope field, then options data (many0 progress error)
+    out.append(Case("stress:v9-zero-scope", ["P 0", "B 0 " + hexs(v9_pkt([v9_fs(1, be(260, 2) + be(4, 2) + be(4, 2) + be(1, 2) + be(0, 2) + be(1, 2) + be(4, 2)), v9_fs(260, bytes(8))]))]))
+    # variable-length fields with lying prefixes
+    out.append(Case("stress:ipfix-varlen", ["P 0", "B 0 " + hexs(ipfix_msg([ipfix_set(2, be(256, 2) + be(2, 2) + be(82, 2) + be(65535, 2) + be(1, 2) + be(4, 2))])),
+                                            "B 0 " + hexs(ipfix_msg([ipfix_set(256, b"\xff\xff\xff" + bytes(50))])), "B 0 " + hexs(ipfix_msg([ipfix_set(256, b"\xff\x00\x02ab" + bytes(4) + b"\x00" + bytes(4) + b"\xfe" + bytes(10))]))]))
+    # durations of 8 and 16 bytes (export Err), 24-bit numbers
+    out.append(Case("stress:durations", ["P 0", "B 0 " + hexs(v9_pkt([v9_fs(0, be(256, 2) + be(3, 2) + be(21, 2) + be(8, 2) + be(22, 2) + be(16, 2) + be(1, 2) + be(3, 2)), v9_fs(256, b"\xff" * 27)]))]))
+    return out
